@@ -696,10 +696,35 @@ Qed.
 Lemma small_is_ascii : forall c, c < 128 -> (c <? 128) = true.
 Proof. intros c H. apply N.ltb_lt. exact H. Qed.
 
+Lemma in_table_forallb : forall (q : cp -> bool) tbl c,
+  forallb q tbl = true -> in_table tbl c = true -> q c = true.
+Proof.
+  intros q tbl c Hf Hin. unfold in_table in Hin. apply existsb_exists in Hin.
+  destruct Hin as [x [Hx Hc]]. apply N.eqb_eq in Hc. subst x.
+  apply (proj1 (forallb_forall _ _) Hf). exact Hx.
+Qed.
+
+(** TABLE OBLIGATIONS (re-checked on every run against the regenerated Gen/C37_Classes.v).
+    [desc_to_lines] counts the common indentation in CHARACTERS ([take_while(is_ws).count()]) and strips
+    it in BYTES ([start_offset += common_indent]); that is only correct while every [is_ws]
+    character (and every [is_ascii_whitespace] character, for blank lines) is ONE byte long. *)
+Lemma is_ws_chars_one_byte : forallb (fun c => blen c =? 1) is_ws_chars = true.
+Proof. vm_compute. reflexivity. Qed.
+
+Lemma ascii_ws_chars_one_byte : forallb (fun c => blen c =? 1) ascii_ws_chars = true.
+Proof. vm_compute. reflexivity. Qed.
+
+Lemma blen_one_ascii : forall c, (blen c =? 1) = true -> (c <? 128) = true.
+Proof.
+  intros c H. apply N.eqb_eq in H. unfold blen in H.
+  destruct (c <? 128); [reflexivity|].
+  destruct (c <? 2048); [discriminate|]. destruct (c <? 65536); discriminate.
+Qed.
+
 Lemma is_ws_ascii : forall c, is_ws c = true -> (c <? 128) = true.
 Proof.
-  intros c H. unfold is_ws in H. apply orb_true_iff in H.
-  apply small_is_ascii. destruct H as [H|H]; apply N.eqb_eq in H; lia.
+  intros c H. apply blen_one_ascii.
+  exact (in_table_forallb _ _ _ is_ws_chars_one_byte H).
 Qed.
 
 Lemma dash_ascii : forall c, (c =? DASH) = true -> (c <? 128) = true.
@@ -707,8 +732,8 @@ Proof. intros c H. apply N.eqb_eq in H. apply small_is_ascii. unfold DASH in H. 
 
 Lemma is_ascii_whitespace_ascii : forall c, is_ascii_whitespace c = true -> (c <? 128) = true.
 Proof.
-  intros c H. unfold is_ascii_whitespace in H. apply small_is_ascii.
-  repeat (apply orb_true_iff in H; destruct H as [H|H]); apply N.eqb_eq in H; lia.
+  intros c H. apply blen_one_ascii.
+  exact (in_table_forallb _ _ _ ascii_ws_chars_one_byte H).
 Qed.
 
 (** an ASCII prefix of [k] characters of the slice [a..b] ends on a boundary inside it *)
